@@ -31,10 +31,22 @@ def obligations(tier):
                          desc='relation %s of the normalised definition, width %d' % (mode, bits),
                          bound='parameters < 2^VB, entries-per-block < EMAX (rung label)',
                          assumes=['all four parameters non-zero (zero handled by DEFAULTS)', 'max(spd,10) <= (EMAX-1)*max(sdf,10)']))
-    for bits in ([8, 24, 32] if tier == 'quick' else WIDTHS):
-        o.append(Obl('DEFAULTS_w%d' % bits, 'c16_align.c', units=['core.c'], defines=['MODE_DEFAULTS=1', 'BITS=%d' % bits, 'EMAX=67'],
-                     unwind=69, timeout=to, backend=pf,
-                     ladder=[('VB%d' % vb, ['VB=%d' % vb], None, None), ('VB8', ['VB=8'], None, None)],
-                     desc='zero fields take the per-width defaults (any non-empty subset of fields zero), width %d' % bits,
-                     bound='non-zero parameters < 2^VB, entries-per-block < 67'))
+    for bits in WIDTHS:
+        o.append(Obl('DEFAULTS_w%d' % bits, 'c16_align.c', units=['core.c'], defines=['MODE_DEFAULTS=1', 'DEFAULTS_FIXED=1', 'BITS=%d' % bits, 'EMAX=67'],
+                     unwind=69, timeout=to,
+                     desc='any non-empty subset of the four fields zero (the others at their default): result is the normalised per-width default tuple, '
+                          'annotation/utc factors non-zero; width %d' % bits,
+                     bound='zero-mask symbolic (15 subsets); non-zero fields fixed at the default'))
+    for bits in ([32] if tier == 'quick' else [1, 8, 24, 32, 64]):
+        o.append(Obl('CRASH_w%d' % bits, 'c16_align.c', units=['core.c'], defines=['MODE_CRASH=1', 'BITS=%d' % bits, 'EMAX=4'],
+                     unwind=6, timeout=to, backend=pf + ['z3'],
+                     desc='full 32-bit parameter domain: no division by zero / wrap to zero, loop bounded, accepted definitions have non-zero factors; width %d' % bits,
+                     bound='all 2^128 parameter tuples with entries-per-block < 4 (input assumption)'))
+    if tier == 'thorough':
+        for bits in [8, 32]:
+            o.append(Obl('DEFAULTS_sym_w%d' % bits, 'c16_align.c', units=['core.c'], defines=['MODE_DEFAULTS=1', 'BITS=%d' % bits, 'EMAX=67'],
+                         unwind=69, timeout=to, backend=pf, tiers=('thorough',),
+                         ladder=[('VB8', ['VB=8'], None, None)],
+                         desc='zero fields take the per-width defaults with the other fields symbolic (miter of two normalisations), width %d' % bits,
+                         bound='non-zero parameters < 2^8, entries-per-block < 67'))
     return o
